@@ -13,7 +13,9 @@ META = {
         "stream.close()); the OS side is M1's oracle; the harness checks os.ReadDir(Directory) after Close",
     ],
     "assumptions": [
-        "Close is called by the writer goroutine after its last write (one writer); rotations never fail",
+        "Close is called by the writer goroutine after its last write (one writer); the model's rotations never fail "
+        "(Close after a rotation whose init generation failed is a harness-only leg); the path table's RWMutex is not "
+        "modelled (VerifServerMutexFree is a harness oracle)",
         "own-step progress is stated from states where the mutex is free (another handler inside its critical section "
         "first needs its own steps) and a writer goroutine that has not panicked; hint_prop (path table) is proved "
         "reachable for all three variants",
